@@ -224,7 +224,7 @@ func verifyFuncPass(P *Program, DB *ContractDB, fn *ssa.Function, k *FuncContrac
 			post.applyGhostSet(gs, ex.st)
 		}
 		for _, en := range k.Ensures {
-			if !en.appliesTo(prop) {
+			if !en.appliesTo(prop) || en.OnlyPanic {
 				continue
 			}
 			g := post.evalBool(en.E)
@@ -242,6 +242,13 @@ func verifyFuncPass(P *Program, DB *ContractDB, fn *ssa.Function, k *FuncContrac
 	if panicExit != nil {
 		post := env.at(panicExit.st, nil)
 		post.old = vc.entry
+		post.results = nil
+		if len(panicExit.vals) == fn.Signature.Results().Len() {
+			res := fn.Signature.Results()
+			for i := 0; i < res.Len(); i++ {
+				post.results = append(post.results, cval{t: panicExit.vals[i], typ: res.At(i).Type(), sort: vc.sortOf(res.At(i).Type())})
+			}
+		}
 		post.lets = map[string]Expr{}
 		post.evalLets(k)
 		for _, en := range k.Ensures {
@@ -292,14 +299,34 @@ func (fr *Frame) handlePanics() *exitInfo {
 	exits = append(exits, fr.deferPanics...)
 	fr.deferPanics = nil
 	fr.panics = nil
+	var ex *exitInfo
 	if len(exits) == 1 {
-		return &exitInfo{reach: exits[0].cond, st: exits[0].st}
+		ex = &exitInfo{reach: exits[0].cond, st: exits[0].st}
+	} else {
+		var conds []string
+		for _, e := range exits {
+			conds = append(conds, e.cond)
+		}
+		ex = &exitInfo{reach: vc.def("panic.exit", "Bool", sOr(conds...)), st: vc.merge(exits)}
 	}
-	var conds []string
-	for _, e := range exits {
-		conds = append(conds, e.cond)
+	// a recovered panic returns through the function's recover block: the values of
+	// the named results as the deferred functions left them
+	if rb := fr.fn.Recover; rb != nil && fr.fn.Signature.Results().Len() > 0 {
+		saved := fr.rets
+		fr.rets = nil
+		cur := ex.reach
+		for _, in := range rb.Instrs {
+			if _, isPhi := in.(*ssa.Phi); isPhi {
+				continue
+			}
+			cur = fr.step(in, ex.st, cur, map[[2]int]bool{})
+		}
+		if len(fr.rets) == 1 {
+			ex.vals = fr.rets[0].vals
+		}
+		fr.rets = saved
 	}
-	return &exitInfo{reach: vc.def("panic.exit", "Bool", sOr(conds...)), st: vc.merge(exits)}
+	return ex
 }
 
 // emitAxioms: user axioms (closed formulas over spec functions).
